@@ -9,6 +9,8 @@ pub enum Kind {
     Write(u64),
     /// get observed exactly this value id (0 = absent)
     ReadExact(u64),
+    /// a scan / first / last / is_empty call covered this key and observed this value id (0 = absent)
+    ReadScan(u64),
     /// contains_key observed presence
     ReadPresent(bool),
     /// size_of observed this length (None = absent)
@@ -44,17 +46,24 @@ struct Entry {
 
 const NIL: usize = usize::MAX;
 
-/// `ops`: all operations on one key. `len_of`: value id -> length.
-pub fn check_key(ops: &[OpRec], len_of: &dyn Fn(u64) -> u32, budget: u64) -> Verdict {
-    let n = ops.len();
+enum Search {
+    Found,
+    Exhausted { best_depth: usize, best_blocked: Option<usize> },
+    OutOfBudget,
+}
+
+/// Wing–Gong search with Lowe's memoisation over `n` operations with the given call/return
+/// stamps against a deterministic sequential model `step(op, state) -> Option<new state>`.
+fn wgl<S: Copy + Eq + std::hash::Hash>(intervals: &[(u64, u64)], init: S, step: &dyn Fn(usize, S) -> Option<S>, budget: u64) -> Search {
+    let n = intervals.len();
     if n == 0 {
-        return Verdict::Linearizable;
+        return Search::Found;
     }
     // build the event list sorted by time (calls and returns)
     let mut evs: Vec<(u64, bool, usize)> = Vec::with_capacity(2 * n);
-    for (i, o) in ops.iter().enumerate() {
-        evs.push((o.call, true, i));
-        evs.push((o.ret, false, i));
+    for (i, o) in intervals.iter().enumerate() {
+        evs.push((o.0, true, i));
+        evs.push((o.1, false, i));
     }
     evs.sort_by_key(|e| (e.0, !e.1));
     // entries: index 0 is the head sentinel
@@ -87,9 +96,9 @@ pub fn check_key(ops: &[OpRec], len_of: &dyn Fn(u64) -> u32, budget: u64) -> Ver
 
     let words = n.div_ceil(64);
     let mut bits = vec![0u64; words];
-    let mut state: u64 = 0; // register value id, 0 = absent
-    let mut cache: HashSet<(Vec<u64>, u64)> = HashSet::new();
-    let mut stack: Vec<(usize, u64)> = Vec::new();
+    let mut state: S = init;
+    let mut cache: HashSet<(Vec<u64>, S)> = HashSet::new();
+    let mut stack: Vec<(usize, S)> = Vec::new();
     let mut entry = ent[0].next;
     let mut steps: u64 = 0;
     let mut best_depth = 0usize;
@@ -129,13 +138,11 @@ pub fn check_key(ops: &[OpRec], len_of: &dyn Fn(u64) -> u32, budget: u64) -> Ver
 
     loop {
         if ent[0].next == NIL {
-            return Verdict::Linearizable;
+            return Search::Found;
         }
         steps += 1;
         if steps > budget {
-            return Verdict::Inconclusive {
-                reason: format!("checker budget of {budget} steps exhausted on a key with {n} operations"),
-            };
+            return Search::OutOfBudget;
         }
         if entry == NIL {
             // ran off the end without finding a candidate: backtrack
@@ -153,20 +160,7 @@ pub fn check_key(ops: &[OpRec], len_of: &dyn Fn(u64) -> u32, budget: u64) -> Ver
         }
         if ent[entry].is_call {
             let op = ent[entry].op;
-            let o = &ops[op];
-            let (ok, new_state) = match &o.kind {
-                Kind::Write(v) => (true, *v),
-                Kind::ReadExact(v) => (*v == state, state),
-                Kind::ReadPresent(p) => (*p == (state != 0), state),
-                Kind::ReadLen(l) => (
-                    match l {
-                        None => state == 0,
-                        Some(l) => state != 0 && len_of(state) == *l,
-                    },
-                    state,
-                ),
-            };
-            if ok {
+            if let Some(new_state) = step(op, state) {
                 let mut nb = bits.clone();
                 nb[op / 64] |= 1u64 << (op % 64);
                 if cache.insert((nb.clone(), new_state)) {
@@ -198,14 +192,97 @@ pub fn check_key(ops: &[OpRec], len_of: &dyn Fn(u64) -> u32, budget: u64) -> Ver
             }
         }
     }
-    let detail = match best_blocked {
-        Some(op) => format!(
-            "no linearization of {} operations; the longest consistent prefix placed {} of them; an operation that could not be placed: {:?} by thread {} (call={}, ret={})",
-            n, best_depth, ops[op].kind, ops[op].thread, ops[op].call, ops[op].ret
-        ),
-        None => format!("no linearization of {n} operations (longest consistent prefix: {best_depth})"),
+    Search::Exhausted { best_depth, best_blocked }
+}
+
+fn read_ok(kind: &Kind, state: u64, len_of: &dyn Fn(u64) -> u32) -> bool {
+    match kind {
+        Kind::Write(_) => true,
+        Kind::ReadExact(v) | Kind::ReadScan(v) => *v == state,
+        Kind::ReadPresent(p) => *p == (state != 0),
+        Kind::ReadLen(l) => match l {
+            None => state == 0,
+            Some(l) => state != 0 && len_of(state) == *l,
+        },
+    }
+}
+
+/// `ops`: all operations on one key. `len_of`: value id -> length. Strict model: one atomic register.
+pub fn check_key(ops: &[OpRec], len_of: &dyn Fn(u64) -> u32, budget: u64) -> Verdict {
+    let n = ops.len();
+    let intervals: Vec<(u64, u64)> = ops.iter().map(|o| (o.call, o.ret)).collect();
+    let step = |op: usize, state: u64| -> Option<u64> {
+        match &ops[op].kind {
+            Kind::Write(v) => Some(*v),
+            k => read_ok(k, state, len_of).then_some(state),
+        }
     };
-    Verdict::NotLinearizable { detail }
+    match wgl(&intervals, 0u64, &step, budget) {
+        Search::Found => Verdict::Linearizable,
+        Search::OutOfBudget => Verdict::Inconclusive {
+            reason: format!("checker budget of {budget} steps exhausted on a key with {n} operations"),
+        },
+        Search::Exhausted { best_depth, best_blocked } => {
+            let detail = match best_blocked {
+                Some(op) => {
+                    // context: the operations around the blocked one in call order
+                    let mut order: Vec<usize> = (0..n).collect();
+                    order.sort_by_key(|&i| ops[i].call);
+                    let pos = order.iter().position(|&i| i == op).unwrap_or(0);
+                    let mut ctx = String::new();
+                    for &i in &order[pos.saturating_sub(10)..(pos + 6).min(n)] {
+                        ctx.push_str(&format!("[t{} {}..{} {:?}]{} ", ops[i].thread, ops[i].call, ops[i].ret, ops[i].kind, if i == op { "<==" } else { "" }));
+                    }
+                    format!(
+                        "no linearization of {} operations; the longest consistent prefix placed {} of them; an operation that could not be placed: {:?} by thread {} (call={}, ret={}); operations around it: {}",
+                        n, best_depth, ops[op].kind, ops[op].thread, ops[op].call, ops[op].ret, ctx
+                    )
+                }
+                None => format!("no linearization of {n} operations (longest consistent prefix: {best_depth})"),
+            };
+            Verdict::NotLinearizable { detail }
+        }
+    }
+}
+
+/// Two-instant model of known finding F8: a write first becomes visible to point reads (which read
+/// at SeqNo::MAX: get, contains_key, size_of, first/last_key_value, is_empty) when it is applied to
+/// the memtable and only later, when its seqno is published, to scans (iter, range, prefix, len,
+/// which read at the visible seqno). Both instants lie inside the write's call/return interval and
+/// writes do not interleave (journal lock): apply(W1) < publish(W1) < apply(W2) < publish(W2).
+/// State = (applied value, published value, a write is between its two instants).
+/// `point_like(kind)` tells which reads observe the applied register.
+pub fn check_key_two_instant(ops: &[OpRec], len_of: &dyn Fn(u64) -> u32, budget: u64) -> Verdict {
+    // sub-operations: every write twice (apply, publish), every read once
+    let mut sub: Vec<(usize, u8)> = Vec::new(); // (op index, 0 = read, 1 = apply, 2 = publish)
+    for (i, o) in ops.iter().enumerate() {
+        if matches!(o.kind, Kind::Write(_)) {
+            sub.push((i, 1));
+            sub.push((i, 2));
+        } else {
+            sub.push((i, 0));
+        }
+    }
+    let intervals: Vec<(u64, u64)> = sub.iter().map(|(i, _)| (ops[*i].call, ops[*i].ret)).collect();
+    let step = |s: usize, state: (u64, u64, bool)| -> Option<(u64, u64, bool)> {
+        let (i, phase) = sub[s];
+        let (applied, published, inflight) = state;
+        match (&ops[i].kind, phase) {
+            (Kind::Write(v), 1) => (!inflight).then_some((*v, published, true)),
+            (Kind::Write(v), _) => (inflight && applied == *v).then_some((applied, *v, false)),
+            (Kind::ReadScan(v), _) => (*v == published).then_some(state),
+            (k, _) => read_ok(k, applied, len_of).then_some(state),
+        }
+    };
+    match wgl(&intervals, (0u64, 0u64, false), &step, budget) {
+        Search::Found => Verdict::Linearizable,
+        Search::OutOfBudget => Verdict::Inconclusive {
+            reason: format!("two-instant checker budget of {budget} steps exhausted on a key with {} operations", ops.len()),
+        },
+        Search::Exhausted { best_depth, .. } => Verdict::NotLinearizable {
+            detail: format!("not explained by the two-instant (apply/publish) model either (longest consistent prefix: {best_depth} sub-operations)"),
+        },
+    }
 }
 
 #[cfg(test)]
@@ -228,5 +305,24 @@ mod tests {
         // stale read after a newer write returned
         let stale = vec![w(1, 2, 7), w(3, 4, 8), r(5, 6, 7)];
         assert!(matches!(check_key(&stale, &|_| 1, 1000), Verdict::NotLinearizable { .. }));
+    }
+    fn sc(call: u64, ret: u64, v: u64) -> OpRec {
+        OpRec { call, ret, kind: Kind::ReadScan(v), thread: 1, len: 0 }
+    }
+    #[test]
+    fn two_instant() {
+        // get sees the in-flight write, a later scan does not yet: strict fails, two-instant explains
+        let h = vec![w(1, 2, 6), w(3, 10, 7), r(4, 5, 7), sc(6, 7, 6), sc(11, 12, 7)];
+        assert!(matches!(check_key(&h, &|_| 1, 1000), Verdict::NotLinearizable { .. }));
+        assert!(matches!(check_key_two_instant(&h, &|_| 1, 1000), Verdict::Linearizable));
+        // the write had returned before the scan started: nothing explains the stale scan
+        let h = vec![w(1, 2, 6), w(3, 5, 7), r(4, 5, 7), sc(6, 7, 6)];
+        assert!(matches!(check_key_two_instant(&h, &|_| 1, 1000), Verdict::NotLinearizable { .. }));
+        // scan ahead of point read is not explained (published implies applied)
+        let h = vec![w(1, 2, 6), w(3, 10, 7), sc(4, 5, 7), r(6, 7, 6)];
+        assert!(matches!(check_key_two_instant(&h, &|_| 1, 1000), Verdict::NotLinearizable { .. }));
+        // two point reads going backwards are not explained
+        let h = vec![w(1, 2, 6), w(3, 10, 7), r(4, 5, 7), r(6, 7, 6)];
+        assert!(matches!(check_key_two_instant(&h, &|_| 1, 1000), Verdict::NotLinearizable { .. }));
     }
 }
